@@ -64,6 +64,9 @@ def gen(ctx, label):
          {"kind": "filler", "sub": "a/v1.2", "writes": [[0, 2]], "reopen": True}, {"kind": "filler", "sub": "a/v1.3", "writes": [[0, 3]], "reopen": False},
          {"kind": "filler", "sub": "part.0", "writes": [[0, 1]], "reopen": False}, {"kind": "filler", "sub": "b/x.json", "writes": [[0, 1]], "reopen": False}],
     ]
+    # shards that hold thousands of examples (a large examples_per_shard): per-shard counts far beyond any small power of two
+    big = [{"kind": "filler", "sub": ".", "writes": [[0, 2500], [1, 1030]], "reopen": False}, {"kind": "filler", "sub": "a", "writes": [[0, 2100]], "reopen": True}]
+    cases.insert(0, {"root": str(ctx.scratch / f"{label}_big"), "fmt": ["npz", "fb"][ctx.seed % 2], "eps": 2600 if not ctx.thorough else 5000, "hist": big, "hashes": ["sha256"]})
     for j, h in enumerate(directed):
         cases.insert(0, {"root": str(ctx.scratch / f"{label}_d{j}"), "fmt": ["fb", "npz", "tfrec"][j % 3], "eps": 2, "hist": h,
                          "hashes": [] if j >= 5 and j % 2 == 1 else ["sha256"]})
@@ -120,7 +123,7 @@ def run(ctx):
     ctx.cov.update({
         "evaluations": nsess, "distinct_nontrivial": len(distinct), "traces_validated_against_impl": nsess - len(corr_bad),
         "correspondence_mismatches": len(corr_bad),
-        "rule": "histories of 1-6 (thorough -12) completed sessions over {root filler, sub-directory filler (fresh, reused, nested up to depth 3), "
+        "rule": "one history with shards of 1030-2500 examples; histories of 1-6 (thorough -12) completed sessions over {root filler, sub-directory filler (fresh, reused, nested up to depth 3), "
                 "multi-writer call with 1-3 writers} x splits x reopen-or-keep handle, on fb/npz/tfrec; after every session the canonicalised list documents "
                 "are compared with the model's store and an independent recount (decode every shard, walk the tree, files on disk vs listed) is evaluated; "
                 "distinct = (format, last session kind/sub-directory, history length, reopened?)",
